@@ -6,11 +6,10 @@ import (
 	"crypto/rand"
 	"crypto/x509"
 	"crypto/x509/pkix"
-	"math/big"
 	"fmt"
 	"io"
+	"math/big"
 	"net"
-	"reflect"
 	"strings"
 	"sync"
 	"time"
@@ -29,6 +28,8 @@ type parrot struct {
 	HasTicket bool
 	HasPSK    bool
 	HasEMS    bool
+	HasModes  bool     // psk_key_exchange_modes
+	Exts      []int    // extension kinds in spec order: 0 ticket, 1 psk, 2 ems, 3 psk modes, 4 other
 	Max13     bool     // supported_versions contains TLS 1.3
 	Min       uint16   // lowest supported version
 	Suites    []uint16 // without GREASE
@@ -68,6 +69,7 @@ func classify(name string, id tls.ClientHelloID) parrot {
 	if id.Client == tls.HelloGolang.Client {
 		// crypto/tls path: makeClientHello always sets ticketSupported, EMS, and can always emit a PSK
 		p.Golang, p.HasTicket, p.HasPSK, p.HasEMS, p.Max13, p.Min = true, true, true, true, true, tls.VersionTLS12
+		p.HasModes = true
 		p.Groups = []uint16{uint16(tls.X25519MLKEM768), uint16(tls.X25519), uint16(tls.CurveP256), uint16(tls.CurveP384), uint16(tls.CurveP521)}
 		p.Shares = []uint16{uint16(tls.X25519MLKEM768), uint16(tls.X25519)}
 		return p
@@ -103,6 +105,18 @@ func classify(name string, id tls.ClientHelloID) parrot {
 	}
 	sawSV := false
 	for _, e := range spec.Extensions {
+		kind := 4
+		switch e.(type) {
+		case tls.ISessionTicketExtension:
+			kind = 0
+		case tls.PreSharedKeyExtension:
+			kind = 1
+		case *tls.ExtendedMasterSecretExtension:
+			kind = 2
+		case *tls.PSKKeyExchangeModesExtension:
+			kind = 3
+		}
+		p.Exts = append(p.Exts, kind)
 		switch x := e.(type) {
 		case tls.ISessionTicketExtension:
 			p.HasTicket = true
@@ -110,6 +124,8 @@ func classify(name string, id tls.ClientHelloID) parrot {
 			p.HasPSK = true
 		case *tls.ExtendedMasterSecretExtension:
 			p.HasEMS = true
+		case *tls.PSKKeyExchangeModesExtension:
+			p.HasModes = true
 		case *tls.SupportedVersionsExtension:
 			sawSV = true
 			for _, v := range x.Versions {
@@ -135,8 +151,6 @@ func classify(name string, id tls.ClientHelloID) parrot {
 					p.Shares = append(p.Shares, uint16(k.Group))
 				}
 			}
-		default:
-			_ = reflect.TypeOf(e)
 		}
 	}
 	if !sawSV && p.Min == 0 {
@@ -166,10 +180,10 @@ func (nopConn) RemoteAddr() net.Addr             { return &net.TCPAddr{} }
 
 // server kinds
 const (
-	srv12 = iota // TLS 1.2 only
-	srv13        // TLS 1.3 only
-	srv13hrr     // TLS 1.3 only, CurvePreferences forcing a HelloRetryRequest for x25519/P-256 key shares
-	srvBoth      // TLS 1.2 and 1.3
+	srv12    = iota // TLS 1.2 only
+	srv13           // TLS 1.3 only
+	srv13hrr        // TLS 1.3 only, CurvePreferences forcing a HelloRetryRequest for x25519/P-256 key shares
+	srvBoth         // TLS 1.2 and 1.3
 	nSrvKinds
 )
 
@@ -224,8 +238,9 @@ func (c *clock) now() time.Time {
 func (c *clock) advance(d time.Duration) { c.mu.Lock(); c.off += d; c.mu.Unlock() }
 
 type pki struct {
-	cert tls.Certificate
-	pool *x509.CertPool
+	cert     tls.Certificate
+	pool     *x509.CertPool
+	notAfter time.Time
 }
 
 var serverNames = []string{"a.test", "b.test"}
@@ -246,7 +261,8 @@ func newPKI() *pki {
 	der, _ := x509.CreateCertificate(rand.Reader, t, ca, &k.PublicKey, caKey)
 	pool := x509.NewCertPool()
 	pool.AddCert(ca)
-	return &pki{cert: tls.Certificate{Certificate: [][]byte{der}, PrivateKey: k}, pool: pool}
+	leaf, _ := x509.ParseCertificate(der)
+	return &pki{cert: tls.Certificate{Certificate: [][]byte{der}, PrivateKey: k}, pool: pool, notAfter: leaf.NotAfter}
 }
 
 func newServer(kind int, pk *pki, clk *clock, ticketKey [32]byte) (*server, error) {
@@ -401,7 +417,8 @@ type connObs struct {
 	CliResumed bool
 	CliVers    uint16
 	CliSuite   uint16
-	CliHRR     bool
+	CliHRR     bool // the server saw two ClientHellos
+	CliHRRSeen bool // the client received a HelloRetryRequest
 	Srv        srvResult
 	SrvSeen    bool
 	Events     []cacheEvent
@@ -455,6 +472,7 @@ func (w *world) connect(pl connPlan) (o connObs) {
 	}
 	defer tc.Close()
 	tc.SetDeadline(time.Now().Add(10 * time.Second))
+	crc := &recConn{Conn: tc}
 	cfg := &tls.Config{ServerName: serverNames[pl.Name], RootCAs: w.pk.pool, ClientSessionCache: w.cache,
 		Time: w.clk.now, OmitEmptyPsk: pl.OmitEmpty, InsecureSkipVerify: pl.SkipVerify}
 	id := pl.P.ID
@@ -465,7 +483,7 @@ func (w *world) connect(pl connPlan) (o connObs) {
 	var uc *tls.UConn
 	var lp *lenPSK
 	panicked, pv := vh.Recover(func() {
-		uc = tls.UClient(tc, cfg, id)
+		uc = tls.UClient(crc, cfg, id)
 		if pl.WrapPSK && pl.P.HasPSK && !pl.P.Golang {
 			lp = &lenPSK{UtlsPreSharedKeyExtension: &tls.UtlsPreSharedKeyExtension{}}
 			if err := uc.SetPskExtension(lp); err != nil {
@@ -501,6 +519,9 @@ func (w *world) connect(pl connPlan) (o connObs) {
 	case <-time.After(12 * time.Second):
 	}
 	o.CliHRR = len(o.Srv.hellos) > 1
+	crc.mu.Lock()
+	o.CliHRRSeen = isHRR(crc.buf)
+	crc.mu.Unlock()
 	o.Events = w.cache.take()
 	o.After = map[string]tls.VerifC19Session{}
 	for _, n := range serverNames {
@@ -511,4 +532,15 @@ func (w *world) connect(pl connPlan) (o connObs) {
 		}
 	}
 	return
+}
+
+var hrrRandom = []byte{0xCF, 0x21, 0xAD, 0x74, 0xE5, 0x9A, 0x61, 0x11, 0xBE, 0x1D, 0x8C, 0x02, 0x1E, 0x65, 0xB8, 0x91,
+	0xC2, 0xA2, 0x11, 0x16, 0x7A, 0xBB, 0x8C, 0x5E, 0x07, 0x9E, 0x09, 0xE2, 0xC8, 0xA8, 0x33, 0x9C}
+
+// isHRR: the first record the server sent is a ServerHello carrying the HelloRetryRequest random (RFC 8446 4.1.3)
+func isHRR(in []byte) bool {
+	if len(in) < 5+4+2+32 || in[0] != 22 || in[5] != 2 {
+		return false
+	}
+	return string(in[11:43]) == string(hrrRandom)
 }
